@@ -17,10 +17,12 @@ PROP = 'C05'
 
 def values_for(u, t):
     rt.AWARE[0] = True
+    rt.SUBCLASS[0] = True
     try:
         vals = rt.ref_values(t)
     finally:
         rt.AWARE[0] = False
+        rt.SUBCLASS[0] = False
     # the catch-all tag is a sendable value for the encoder only (decoders must refuse it: C06)
     ut, _ = rt.strip(t)
     if isinstance(ut, dt.Union):
